@@ -21,9 +21,9 @@ typedef long double ld;
 // x documented accuracy (same constants as C01)
 static const double K_SERIES = 2.0, K_EXACT = 4.0, K_EXACT_EXTREME = 8.0;
 
-struct Pair { gh::EllSpec e; double lat1, lon1, lat2, lon2; std::string sec, regime, cls; };
+struct Pair { gh::EllSpec e; double lat1, lon1, lat2, lon2; std::string sec, regime, cls, kx, ks; };     // kx / ks: known-defect regime of the exact / series solver ("" = none)
 struct Inv { double a12, s12, azi1, azi2, m12, M12, M21, S12; };
-struct RefKnown { bool have = false; q128 s12, azi1, azi2, m12; double d = 0; };     // constructed answer (for the unrounded point 2) and rounding displacement
+struct RefKnown { bool have = false; q128 s12, azi1, azi2, m12, lat2, lon12; double d = 0; };     // constructed answer (for the unrounded point 2) and rounding displacement
 
 static q128 lon12_exact(const Pair& p) { return remainderq((q128)p.lon2 - (q128)p.lon1, 360); }
 static double tol_of(const gh::Solvers& S, bool series) {
@@ -36,11 +36,11 @@ static bool anti_lat_eff(double lat1, double lat2) { return lat1 == -lat2 || std
 
 // ---------------------------------------------------------------- regime classification (from the inputs' geometry only)
 static std::string regime_of(double a, double f, double lat1, double lat2, q128 lon12q) {
-  double lon12 = std::fabs((double)lon12q);
+  const q128 aL = fabsq(lon12q);
+  double lon12 = (double)aL;
   bool pole1 = std::fabs(lat1) == 90, pole2 = std::fabs(lat2) == 90;
-  if ((lat1 == lat2 && lon12 == 0 && !pole1) || (pole1 && lat1 == lat2)) return "coincident";
+  if ((lat1 == lat2 && aL == 0 && !pole1) || (pole1 && lat1 == lat2)) return "coincident";
   if (pole1 || pole2) return "polar";
-  if (lon12 == 0 || lon12 == 180) return "meridional";
   double b1 = std::atan((1 - f) * std::tan(lat1 * M_PI / 180)), b2 = std::atan((1 - f) * std::tan(lat2 * M_PI / 180));
   // spherical arc between the reduced positions
   double dl = lon12 * M_PI / 180, sdb = std::sin((b2 - b1) / 2), sdl = std::sin(dl / 2);
@@ -50,10 +50,12 @@ static std::string regime_of(double a, double f, double lat1, double lat2, q128 
   // the solver treats |lat| < ~3.5e-18 deg as the equator (documented in its source: 'If really close to the equator, treat as on equator')
   const double flush = 3.4e-18;
   const bool eq1 = std::fabs(lat1) < flush, eq2 = std::fabs(lat2) < flush;
-  if (eq1 && eq2) return lon12 <= (1 - std::max(0.0, f)) * 180 ? "equatorial" : lon12 < (1 - f) * 180 * (1 + 1e-6) ? "equatorial-beyond-limit" : "near-antipodal";
-  // thin regimes that get their own class (and their own violation keys)
-  if (f > 0 && std::fabs(lat1) < 1e-9 && std::fabs(lat2) < 1e-9 && lon12 > 0.99 * (1 - f) * 180 && lon12 < std::min(180.0, 1.01 * (1 - f) * 180)) return "equatorial-limit";
+  const double lim = (1 - std::max(0.0, f)) * 180;
+  if (eq1 && eq2) return aL == 0 ? "coincident" : lon12 <= lim ? "equatorial" : lon12 < lim * (1 + 1e-6) ? "equatorial-beyond-limit" : "near-antipodal";
+  // thin nearly-equatorial regimes get their own class
+  if (f > 0 && std::fabs(lat1) < 1e-8 && std::fabs(lat2) < 1e-8) return (lon12 > 0.99 * lim && lon12 < std::min(180.0, 1.01 * lim)) ? "equatorial-limit" : sig < etol2 ? "short-line" : "near-equator";
   if (f < 0 && std::fabs(lat1) < 1 && std::fabs(lat2) < 1 && lon12 > 90) return "near-equator-prolate";
+  if (aL == 0 || aL == 180) return "meridional";
   if (sig < etol2) return "short-line";
   // astroid neighbourhood of the antipodal point: |lon12 - 180| and |bet1 + bet2| within ~3 x |f| pi cos(bet1)
   double cb = std::max(std::cos(b1), 1e-3), sc = std::max(std::fabs(f), 1e-12) * M_PI * cb;
@@ -61,6 +63,61 @@ static std::string regime_of(double a, double f, double lat1, double lat2, q128 
   if (sig > M_PI * (1 - 1e-6)) return "near-antipodal";
   (void)a;
   return "general";
+}
+
+// ---------------------------------------------------------------- known-defect regimes (DECISIONS.md): decided from the INPUTS only
+// (ellipsoid, end points, which solver), checked in this fixed order.  Inside such a regime every monitor failure is reported under the
+// single key regime:C02/<family> with the monitor's own key in detail.monitor; outside, the monitor keys apply unchanged.
+static std::string known_family(bool series, double f, double lat1, double lat2, q128 lon12q) {
+  const q128 aL = fabsq(lon12q);
+  const double L = (double)aL, m1 = std::fabs(lat1), m2 = std::fabs(lat2), mx = std::max(m1, m2);
+  const double flush = 3.4e-18;
+  const bool eq1 = m1 < flush, eq2 = m2 < flush, on_eq = eq1 && eq2;
+  const double lim = (1 - std::max(0.0, f)) * 180;
+  // D5 (+D8) exact: nearly coincident points.  Separation on the auxiliary sphere sep = |bet1 - bet2| + cos(bet) |lon12| (degrees):
+  //   anywhere:                                           sep < 1e-13  (observed: points 1-2 ulp of latitude apart on one meridian, a12 = 1.3e-14 .. 2.9e-14)
+  //   both reduced latitudes beyond 80 deg, same side:    sep < 3e-12  (observed a12 up to 1.6e-12, any f)
+  //   ... and strongly prolate (f < -2):                  sep < 1e-8   (observed a12 up to 2.1e-9 for f = -97)
+  if (!series && lat1 * lat2 > 0) {
+    auto beta = [f](double lat) { long double sp, cp; ref::sincosd<long double>((long double)lat, sp, cp); return std::atan2((1 - (long double)f) * sp, cp); };
+    long double b1 = beta(lat1), b2 = beta(lat2), d80 = 80 * ref::deg<long double>();
+    long double sep = (std::fabs(b1 - b2) + std::min(std::cos(b1), std::cos(b2)) * (long double)L * ref::deg<long double>()) / ref::deg<long double>();
+    bool nearpole = std::fabs(b1) > d80 && std::fabs(b2) > d80;
+    if (sep < (nearpole ? (f < -2 ? 1e-8L : 3e-12L) : 1e-13L)) return "exact/nearly-coincident-points";
+  }
+  // D7 both solvers: prolate, lat2 = -lat1 +- 1..4 ulp (but not exactly -lat1), lon12 = 180 or slightly less (up to 3e-12 deg; up to 3e-6 deg
+  // when |n| > 0.1, i.e. f < -0.2): NaN outputs
+  if (f < 0 && lat1 != -lat2 && std::fabs(lat1 + lat2) <= 4 * ref::ulp_d(mx) && 180 - L <= (f < -0.2 ? 3e-6 : 3e-12)) return "prolate-lon180-lat2-nearly-minus-lat1";
+  // D1 exact: strongly prolate (f < -2), opposite meridians exactly, both points in the same hemisphere: over-the-pole meridian with m12 < 0
+  if (!series && f < -2 && aL == 180 && lat1 * lat2 > 0) return "exact/very-prolate-lon180-same-hemisphere";
+  // D2 exact: prolate with |n| > 0.1 (f < -0.2), both points within 1 deg of the equator (not both on it), lon12 > 90
+  if (!series && f < -0.2 && m1 < 1 && m2 < 1 && !on_eq && L > 90) return "exact/prolate-near-equatorial";
+  // D4 exact: very oblate (f > 0.35), both points ON the equator, lon12 just beyond the end (1-f) 180 of the equatorial regime
+  if (!series && f > 0.35 && on_eq && L > lim && L < lim * (1 + 1e-6)) return "exact/very-oblate-equatorial-just-beyond-limit";
+  // D6 exact: oblate with |n| > 0.1 (f > 0.18), both points within 1e-12 deg of the equator (not both on it), lon12 below the equatorial limit band
+  if (!series && f > 0.18 && mx < 1e-12 && !on_eq && L <= 0.99 * lim) return "exact/very-oblate-near-equatorial-below-limit";
+  // D3 both solvers: oblate, both points within 1e-8 deg of the equator (not both on it), lon12 within 1 % of (1-f) 180
+  if (f > 0 && mx < 1e-8 && !on_eq && L > 0.99 * lim && L < std::min(180.0, 1.01 * lim)) return "oblate-equatorial-limit";
+  // D9 both solvers: oblate with |n| > 0.1 (f > 0.18: no astroid start), lat2 = -lat1 to 1e-3 relative, |lat| < 2 deg, lon12 within 0.1 % of the
+  // cusp of the astroid 180 (1 - f cos(bet1))
+  if (f > 0.18 && mx < 2 && !on_eq && std::fabs(lat1 + lat2) <= 1e-3 * mx + 1e-12) {
+    double cusp = 180 * (1 - f * std::cos(std::atan((1 - f) * std::tan(mx * M_PI / 180))));
+    if (L > 0.999 * cusp && L < 1.001 * cusp) return "very-oblate-near-cusp";
+  }
+  return "";
+}
+static void classify(Pair& p, q128 lon12q) {
+  p.regime = regime_of(p.e.a, p.e.f, p.lat1, p.lat2, lon12q);
+  p.cls = p.sec + "/" + p.regime + "/" + p.e.bucket;
+  p.kx = known_family(false, p.e.f, p.lat1, p.lat2, lon12q);
+  p.ks = p.e.series_ok ? known_family(true, p.e.f, p.lat1, p.lat2, lon12q) : "";
+}
+// which: 'x' exact solver's output involved, 's' series, 'b' both
+static void report(Ctx& c, const Pair& p, char which, const std::string& key, const J& detail) {
+  static const std::string none;
+  const std::string& fam = which == 'n' ? none : (which != 's' && !p.kx.empty()) ? p.kx : (which != 'x' && !p.ks.empty()) ? p.ks : none;
+  if (fam.empty()) c.viol(key, p.cls, detail);
+  else { c.event("monitor failures inside known regime " + fam); c.viol("regime:C02/" + fam, p.cls, J(detail).str("monitor", key)); }
 }
 
 // ---------------------------------------------------------------- library calls
@@ -105,9 +162,9 @@ static int judge_one(Ctx& c, const gh::Solvers& S, const Pair& p, const char* so
   const double T = tol_of(S, series);
   std::string sv = solver;
   auto bad = [&](const std::string& what, double err, double tol) {
-    c.viol("oracle:C02/" + sv + "/" + what, p.cls, wout(wit(p, solver), o).f("err_m", err).f("tol_m", tol).str("regime", p.regime)); };
+    report(c, p, series ? 's' : 'x', "oracle:C02/" + sv + "/" + what, wout(wit(p, solver), o).f("err_m", err).f("tol_m", tol).str("regime", p.regime)); };
   if (!(std::isfinite(o.a12) && std::isfinite(o.s12) && std::isfinite(o.azi1) && std::isfinite(o.azi2) && std::isfinite(o.m12) &&
-        std::isfinite(o.M12) && std::isfinite(o.M21) && std::isfinite(o.S12))) { bad("non-finite-output", HUGE_VAL, 0); return 0; }
+        std::isfinite(o.M12) && std::isfinite(o.M21) && std::isfinite(o.S12))) { bad("non-finite-output/" + p.regime + "/" + shape_of(p.e.f), HUGE_VAL, 0); return 0; }
   // (iii) ranges
   // 180 deg plus round-off: the equatorial branch returns lon12 / (1 - f) after testing lon12 <= (1 - f) 180 in floating point,
   // so the excess can reach a few ulp(180) / (1 - f)
@@ -151,7 +208,7 @@ template <class G> static void judge_line(Ctx& c, const gh::Solvers& S, const G&
   std::string sv = solver;
   c.obs("InverseLine: Position(Distance()) miss / tolerance [" + sv + "]", epos / (2 * T), wit(p, solver).f("err_m", epos));
   c.obs("InverseLine: Distance()-s12 / tolerance [" + sv + "]", es / T);
-  auto bad = [&](const char* what, double err) { c.viol("law:C02/" + sv + "/InverseLine/" + what + "/" + subregime(p, o), p.cls, wout(wit(p, solver), o).f("err_m", err).f("tol_m", 2 * T).f("line_s13", l.Distance()).f("line_a13", l.Arc()).f("lat", lat).f("lon", lon).f("azi", azi)); };
+  auto bad = [&](const char* what, double err) { report(c, p, series ? 's' : 'x', "law:C02/" + sv + "/InverseLine/" + what + "/" + subregime(p, o), wout(wit(p, solver), o).f("err_m", err).f("tol_m", 2 * T).f("line_s13", l.Distance()).f("line_a13", l.Arc()).f("lat", lat).f("lon", lon).f("azi", azi)); };
   if (!(epos <= 2 * T)) bad("position", epos);
   if (!(es <= T)) bad("distance", es);
   if (!(ea <= T)) bad("arc", ea);
@@ -165,11 +222,12 @@ struct Opt { bool scan = false; bool trivial = false; const RefKnown* rk = nullp
 static void check_pair(Ctx& c, Pair& p, const Opt& opt) {
   gh::Solvers& S = gh::solvers(p.e.a, p.e.f, p.e.series_ok);
   const q128 lon12q = lon12_exact(p);
-  p.regime = regime_of(p.e.a, p.e.f, p.lat1, p.lat2, lon12q);
-  p.cls = p.sec + "/" + p.regime + "/" + p.e.bucket;
+  classify(p, lon12q);
   uint64_t h = vh::hmix(vh::hmix(vh::hmix(vh::hmix(vh::hmix(vh::hmix(17, p.e.a), p.e.f), p.lat1), p.lon1), p.lat2), p.lon2);
   c.count(p.cls, h, opt.trivial);
   c.event("regime: " + p.regime);
+  if (!p.kx.empty()) c.event("cases inside known regime " + p.kx);
+  if (!p.ks.empty() && p.ks != p.kx) c.event("cases inside known regime " + p.ks);
   if (c.want_sample(p.cls)) c.sample(p.cls, wit(p, "-"));
   const bool ser = p.e.series_ok;
   Inv os{}, ox = call_inv(*S.exact, p), od = call_inv(*S.delegating, p);
@@ -185,7 +243,7 @@ static void check_pair(Ctx& c, Pair& p, const Opt& opt) {
   // Geodesic(exact=true) must be the exact solver (pure delegation): identical bits
   if (!(vh::same_bits(od.a12, ox.a12) && vh::same_bits(od.s12, ox.s12) && vh::same_bits(od.azi1, ox.azi1) && vh::same_bits(od.azi2, ox.azi2) &&
         vh::same_bits(od.m12, ox.m12) && vh::same_bits(od.M12, ox.M12) && vh::same_bits(od.M21, ox.M21) && vh::same_bits(od.S12, ox.S12)))
-    c.viol("law:C02/exact-delegating/differs-from-GeodesicExact", p.cls, wout(wit(p, "exact-delegating"), od).f("exact_s12", ox.s12).f("exact_azi1", ox.azi1));
+    report(c, p, 'n', "law:C02/exact-delegating/differs-from-GeodesicExact", wout(wit(p, "exact-delegating"), od).f("exact_s12", ox.s12).f("exact_azi1", ox.azi1));
   const double Tx = tol_of(S, false), Ts = tol_of(S, true);
   // (v) series vs exact
   if (ser && okx && oks) {
@@ -194,16 +252,16 @@ static void check_pair(Ctx& c, Pair& p, const Opt& opt) {
     double e1 = std::fabs(angdiff(os.azi1, ox.azi1)) * M_PI / 180 * mm, e2 = std::fabs(angdiff(os.azi2, ox.azi2)) * M_PI / 180 * mm;
     // documented alternative pairs of equally short geodesics
     if (anti_lat_eff(p.lat1, p.lat2)) { double f1 = std::fabs(angdiff(os.azi1, ox.azi2)) * M_PI / 180 * mm, f2 = std::fabs(angdiff(os.azi2, ox.azi1)) * M_PI / 180 * mm; if (std::max(f1, f2) < std::max(e1, e2)) { e1 = f1; e2 = f2; } }
-    if (std::fabs((double)lon12q) == 180) { double f1 = std::fabs(angdiff(os.azi1, -ox.azi1)) * M_PI / 180 * mm, f2 = std::fabs(angdiff(os.azi2, -ox.azi2)) * M_PI / 180 * mm; if (std::max(f1, f2) < std::max(e1, e2)) { e1 = f1; e2 = f2; } }
+    if (fabsq(lon12q) == 180) { double f1 = std::fabs(angdiff(os.azi1, -ox.azi1)) * M_PI / 180 * mm, f2 = std::fabs(angdiff(os.azi2, -ox.azi2)) * M_PI / 180 * mm; if (std::max(f1, f2) < std::max(e1, e2)) { e1 = f1; e2 = f2; } }
     bool freeazi = p.regime == "coincident" || os.s12 == 0 || ox.s12 == 0 || (std::fabs(p.lat1) == 90 && p.lat1 == -p.lat2) || (p.e.f == 0 && std::fabs(os.a12 - 180) < 1e-9);
     c.obs("series vs exact: |s12 difference| / (tol_s + tol_x)", es / tol, wit(p, "series").f("err_m", es));
-    if (es > tol) c.viol("law:C02/series-vs-exact/s12/" + subregime(p, ox), p.cls, wout(wit(p, "series"), os).f("exact_s12", ox.s12).f("err_m", es).f("tol_m", tol));
+    if (es > tol) report(c, p, 'b', "law:C02/series-vs-exact/s12/" + subregime(p, ox), wout(wit(p, "series"), os).f("exact_s12", ox.s12).f("err_m", es).f("tol_m", tol));
     if (!freeazi) {
       c.obs("series vs exact: azimuth difference*|m12| / (tol_s + tol_x)", std::max(e1, e2) / tol, wit(p, "series"));
-      if (std::max(e1, e2) > tol) c.viol("law:C02/series-vs-exact/azimuth/" + subregime(p, ox), p.cls, wout(wit(p, "series"), os).f("exact_azi1", ox.azi1).f("exact_azi2", ox.azi2).f("err_m", std::max(e1, e2)).f("tol_m", tol));
+      if (std::max(e1, e2) > tol) report(c, p, 'b', "law:C02/series-vs-exact/azimuth/" + subregime(p, ox), wout(wit(p, "series"), os).f("exact_azi1", ox.azi1).f("exact_azi2", ox.azi2).f("err_m", std::max(e1, e2)).f("tol_m", tol));
     }
     double ea = std::fabs(os.a12 - ox.a12) * M_PI / 180 * S.b;
-    if (ea > tol) c.viol("law:C02/series-vs-exact/a12/" + subregime(p, ox), p.cls, wout(wit(p, "series"), os).f("exact_a12", ox.a12).f("err_m", ea).f("tol_m", tol));
+    if (ea > tol) report(c, p, 'b', "law:C02/series-vs-exact/a12/" + subregime(p, ox), wout(wit(p, "series"), os).f("exact_a12", ox.a12).f("err_m", ea).f("tol_m", tol));
   }
   // InverseLine
   if (okx) judge_line(c, S, *S.exact, p, "exact", false, ox, lon12q);
@@ -216,17 +274,21 @@ static void check_pair(Ctx& c, Pair& p, const Opt& opt) {
       double es = (double)fabsq((q128)o.s12 - rk.s12);
       std::string sv = solver;
       c.obs("constructed: |s12 - s12_REF| / (tolerance + rounding) [" + sv + "]", es / (T + rk.d), wit(p, solver).f("err_m", es).f("round_m", rk.d));
-      if (es > T + rk.d) c.viol("oracle:C02/" + sv + "/constructed/s12/" + subregime(p, o), p.cls, wout(wit(p, solver), o).str("ref_s12", ref::qstr(rk.s12, 22)).f("err_m", es).f("tol_m", T + rk.d).str("regime", p.regime));
-      // azimuths: only where moving point 2 by d is a small perturbation of the geodesic (linear regime)
+      if (es > T + rk.d) report(c, p, sv == "series" ? 's' : 'x', "oracle:C02/" + sv + "/constructed/s12/" + subregime(p, o), wout(wit(p, solver), o).str("ref_s12", ref::qstr(rk.s12, 22)).f("err_m", es).f("tol_m", T + rk.d).str("regime", p.regime));
+      // azimuths: only where moving point 2 by d is a small perturbation of the geodesic (linear regime).  The rounding of lon2
+      // also rotates the local north at point 2 (meridian convergence): azi2 is compared with the author's azidiff formula.
       double m = (double)fabsq(rk.m12);
-      if (rk.d < 1e-3 * m * 1e-3 && o.s12 > 0) {
-        double e1 = (double)fabsq(remainderq((q128)o.azi1 - rk.azi1, 360)) * M_PI / 180 * m, e2 = (double)fabsq(remainderq((q128)o.azi2 - rk.azi2, 360)) * M_PI / 180 * m;
-        // pole: the azimuth is tied to the longitude convention; judged by the join monitor instead
-        if (std::fabs(p.lat1) != 90 && std::fabs(p.lat2) != 90) {
-          c.obs("constructed: azimuth error*|m12| / (tolerance + 2 rounding) [" + sv + "]", std::max(e1, e2) / (T + 2 * rk.d), wit(p, solver));
-          if (std::max(e1, e2) > T + 2 * rk.d) c.viol("oracle:C02/" + sv + "/constructed/azimuth/" + subregime(p, o), p.cls, wout(wit(p, solver), o).str("ref_azi1", ref::qstr(rk.azi1, 22)).str("ref_azi2", ref::qstr(rk.azi2, 22)).f("err_m", std::max(e1, e2)).f("tol_m", T + 2 * rk.d));
-          c.event("constructed azimuths judged");
-        }
+      if (rk.d < 1e-3 * m * 1e-3 && o.s12 > 0 && std::fabs(p.lat1) != 90 && std::fabs(p.lat2) != 90) {
+        const q128 dlam = remainderq(lon12q - rk.lon12, 360) * ref::deg<q128>(), sphi = sinq(rk.lat2 * ref::deg<q128>());
+        auto e1of = [&](double azi1) { return (double)fabsq(remainderq((q128)azi1 - rk.azi1, 360)) * M_PI / 180 * m; };
+        auto e2of = [&](double azi2) { q128 dalp = remainderq((q128)azi2 - rk.azi2, 360) * ref::deg<q128>(); return (double)fabsq(sinq(dalp) * cosq(dlam) - cosq(dalp) * sinq(dlam) * sphi) * m; };
+        double e = std::max(e1of(o.azi1), e2of(o.azi2));
+        // documented alternatives where the rounded pair has two equally short geodesics
+        if (anti_lat_eff(p.lat1, p.lat2)) e = std::min(e, std::max(e1of(o.azi2), e2of(o.azi1)));
+        if (fabsq(lon12q) == 180) { e = std::min(e, std::max(e1of(-o.azi1), e2of(-o.azi2))); if (anti_lat_eff(p.lat1, p.lat2)) e = std::min(e, std::max(e1of(-o.azi2), e2of(-o.azi1))); }
+        c.obs("constructed: azimuth error*|m12| / (tolerance + 2 rounding) [" + sv + "]", e / (T + 2 * rk.d), wit(p, solver));
+        if (e > T + 2 * rk.d) report(c, p, sv == "series" ? 's' : 'x', "oracle:C02/" + sv + "/constructed/azimuth/" + subregime(p, o), wout(wit(p, solver), o).str("ref_azi1", ref::qstr(rk.azi1, 22)).str("ref_azi2", ref::qstr(rk.azi2, 22)).f("err_m", e).f("tol_m", T + 2 * rk.d));
+        c.event("constructed azimuths judged");
       }
     };
     one("exact", ox, Tx); if (ser) one("series", os, Ts);
@@ -238,12 +300,12 @@ static void check_pair(Ctx& c, Pair& p, const Opt& opt) {
     double a = S.a, b = S.b, kmax = 1.01 * std::max(std::max(a / (b * b), 1 / a), b / (a * a));
     double chd = (double)ch;
     auto one = [&](const char* solver, const Inv& o, double T) {
-      if ((double)((q128)o.s12 - ch) < -T) c.viol(std::string("oracle:C02/") + solver + "/s12-shorter-than-chord/" + p.regime + "/" + shape_of(p.e.f), p.cls, wout(wit(p, solver), o).f("chord", chd).f("tol_m", T));
+      if ((double)((q128)o.s12 - ch) < -T) report(c, p, solver[0] == 's' ? 's' : 'x', std::string("oracle:C02/") + solver + "/s12-shorter-than-chord/" + p.regime + "/" + shape_of(p.e.f), wout(wit(p, solver), o).f("chord", chd).f("tol_m", T));
       if (chd * kmax < 1e-5) {
         q128 x = (q128)kmax * ch / 2, ub = ch * (1 + x * x / 6 + 3 * x * x * x * x / 40 + x * x * x * x * x * x);    // (2/k) asin(k c/2), rounded up
         double over = (double)((q128)o.s12 - ub);
         c.obs(std::string("short line: (s12 - chord-arc bound) / tolerance [") + solver + "]", over / T, wit(p, solver));
-        if (over > T) c.viol(std::string("oracle:C02/") + solver + "/not-shortest/chord-bound/" + p.regime + "/" + shape_of(p.e.f), p.cls, wout(wit(p, solver), o).f("chord", chd).f("err_m", over).f("tol_m", T));
+        if (over > T) report(c, p, solver[0] == 's' ? 's' : 'x', std::string("oracle:C02/") + solver + "/not-shortest/chord-bound/" + p.regime + "/" + shape_of(p.e.f), wout(wit(p, solver), o).f("chord", chd).f("err_m", over).f("tol_m", T));
         c.event("short-line chord certificates");
       }
     };
@@ -263,7 +325,7 @@ static void check_pair(Ctx& c, Pair& p, const Opt& opt) {
           std::string sv = solver;
           c.obs("scan: (s12 - least joining length) / tolerance [" + sv + "]", over / T, wit(p, solver).f("err_m", over));
           if (joined) c.obs("scan: (least joining length - s12) / tolerance, library's geodesic joins (scan missed it if > 1) [" + sv + "]", -over / T, wit(p, solver).f("err_m", -over));
-          if (over > T) c.viol("oracle:C02/" + sv + "/not-shortest/scan/" + p.regime + "/" + shape_of(p.e.f), p.cls,
+          if (over > T) report(c, p, sv == "series" ? 's' : 'x', "oracle:C02/" + sv + "/not-shortest/scan/" + p.regime + "/" + shape_of(p.e.f),
                                wout(wit(p, solver), o).str("shorter_s12", ref::qstr(R.smin_q, 22)).str("shorter_azi_at_origin", ref::qstr(R.azi_origin_q, 18)).b("origin_is_point2", R.swapped).f("err_m", over).f("tol_m", T).i("nroots", R.nroots));
           if (-over > T && joined) c.event("global scans that missed the library's (joining) geodesic [" + sv + "]");
         };
@@ -308,13 +370,14 @@ static void sec_constructed(Ctx& c, uint64_t) {
   ref::GeodPos<q128> P = L.at_arc((q128)a12);
   p.lat2 = (double)P.lat2; if (std::fabs(p.lat2) > 90) p.lat2 = std::copysign(90.0, p.lat2);
   p.lon2 = (double)((q128)p.lon1 + P.lon12);
-  RefKnown rk; rk.s12 = P.s12; rk.azi1 = (q128)azi1; rk.azi2 = P.azi2; rk.m12 = P.m12;
+  RefKnown rk; rk.s12 = P.s12; rk.azi1 = (q128)azi1; rk.azi2 = P.azi2; rk.m12 = P.m12; rk.lat2 = P.lat2; rk.lon12 = P.lon12;
   { q128 X1[3], X2[3]; ref::to_xyz<q128>(S.E, P.lat2, P.lon12, X1); ref::to_xyz<q128>(S.E, (q128)p.lat2, (q128)p.lon2 - (q128)p.lon1, X2); rk.d = (double)ref::dist3(X1, X2) * 1.0001; }
   // unique-shortest criterion: sigma12 < pi and longitudinal extent < 180 (the latter matters on prolate ellipsoids)
   rk.have = a12 < 180 && (double)fabsq(P.lon12) < 180 - 1e-9;
   if (!rk.have) c.event("constructed pairs without certificate (longitudinal extent >= 180)");
   p.sec = "constructed-" + cn;
-  Opt o; o.rk = &rk; o.scan = c.idx % 25 == 0;     // stratified 4 % subsample also gets the global scan
+  // stratified 4 % subsample also gets the global scan (1 % on the extreme ellipsoids, whose scans cost ~1 s)
+  Opt o; o.rk = &rk; o.scan = c.idx % 25 == 0 && !((p.e.f > 0.6 || p.e.f < -2) && c.idx % 100 != 0);
   check_pair(c, p, o);
 }
 
@@ -337,7 +400,7 @@ static void sec_random(Ctx& c, uint64_t) {
   case 3: p.lon2 = p.lon1 + r.sign() * r.logu(1e-14, 1e-3); break;
   default: p.lon2 = gh::pick_lon(r); break;
   }
-  Opt o; o.scan = c.idx % 20 == 0;
+  Opt o; o.scan = c.idx % 20 == 0 && !((p.e.f > 0.6 || p.e.f < -2) && c.idx % 80 != 0);
   check_pair(c, p, o);
 }
 
@@ -353,6 +416,47 @@ static void sec_short(Ctx& c, uint64_t) {
   p.lon2 = p.lon1 + len * std::sin(th * M_PI / 180) / (R * coslat) * 180 / M_PI;
   if (r.coin(0.05)) { p.lat2 = p.lat1; p.lon2 = p.lon1 + (r.coin() ? 0 : 360); }       // coincident
   Opt o; o.scan = c.idx % 40 == 0;
+  check_pair(c, p, o);
+}
+
+// ---- nearly antipodal pairs on (almost) opposite meridians with lat2 = -lat1 +- a few ulp (D7 regime and its neighbourhood)
+static void sec_antipodal_ulps(Ctx& c, uint64_t) {
+  vh::Rng& r = c.rng;
+  Pair p; p.sec = "antipodal-ulps"; p.e = gh::pick_ellipsoid(r);
+  if (r.coin(0.5)) { static const double fl[] = {-1e-6, -gh::WGS84_F, -0.01, -0.05, -0.1, -0.2, -0.5, -1, -9, gh::WGS84_F, 0.1}; p.e = ell_of(r.coin(0.8) ? gh::WGS84_A : 1.0, r.pick(fl)); }
+  p.lat1 = r.coin(0.9) ? r.uniform(-90, 90) : r.sign() * r.logu(1e-12, 1);
+  p.lat2 = vh::ulps(-p.lat1, r.range(-6, 6)); if (std::fabs(p.lat2) > 90) p.lat2 = -p.lat1;
+  p.lon1 = r.coin(0.7) ? 0.0 : r.uniform(-180, 180);
+  p.lon2 = p.lon1 + 180; if (r.coin(0.4)) p.lon2 = vh::ulps(p.lon2, r.range(-4, 4));
+  Opt o; o.scan = c.idx % 20 == 0;
+  check_pair(c, p, o);
+}
+
+// ---- both points next to the equator (1e-17 .. 1e-8 deg, prolate: .. 0.5 deg), any longitude difference; emphasis on ellipsoids with
+// third flattening |n| > 0.1, for which the solver has no astroid starting guess (D2, D3, D4, D6, D9 regimes and their neighbourhood)
+static void sec_near_equator(Ctx& c, uint64_t) {
+  vh::Rng& r = c.rng;
+  Pair p; p.sec = "near-equator";
+  switch (r.below(5)) {
+  case 0: case 1: p.e = ell_of(r.coin(0.8) ? gh::WGS84_A : 1.0, r.uniform(0.15, 0.99)); break;
+  case 2: p.e = ell_of(r.coin(0.8) ? gh::WGS84_A : 1.0, -r.logu(0.15, 99)); break;
+  default: p.e = gh::pick_ellipsoid(r); break;
+  }
+  const double f = p.e.f, lim = (1 - std::max(0.0, f)) * 180;
+  double hi = (f < 0 && r.coin(0.3)) ? 0.5 : (r.coin(0.3) ? 1e-12 : 1e-8);
+  p.lat1 = r.coin(0.25) ? (r.coin() ? 0.0 : -0.0) : r.sign() * r.logu(1e-17, hi);
+  p.lat2 = r.coin(0.1) ? -p.lat1 : r.sign() * r.logu(1e-17, hi);
+  p.lon1 = r.coin(0.5) ? 0.0 : r.uniform(-180, 180);
+  double dl;
+  switch (r.below(4)) {
+  case 0: dl = lim * (1 - r.sign() * r.logu(1e-13, 1e-2)); break;        // around the end of the equatorial regime
+  case 1: dl = 180 - r.logu(1e-13, 30); break;                             // towards the antipodal meridian
+  default: dl = r.uniform(0, lim); break;                                  // anywhere below the limit
+  }
+  if (dl > 180) dl = 360 - dl;
+  if (dl < 0) dl = -dl;
+  p.lon2 = p.lon1 + dl * (r.coin(0.8) ? 1 : -1);
+  Opt o; o.scan = c.idx % 10 == 0 && !(c.quick() && (f > 0.6 || f < -2) && c.idx % 40 != 0);
   check_pair(c, p, o);
 }
 
@@ -502,6 +606,9 @@ template <class G> static void sym_solver(Ctx& c, const gh::Solvers& S, const G&
   const double T = tol_of(S, series);
   Inv o = call_inv(g, p);
   const q128 lon12q = lon12_exact(p);
+  const char wh = series ? 's' : 'x';
+  auto finite = [](const Inv& x) { return std::isfinite(x.a12) && std::isfinite(x.s12) && std::isfinite(x.azi1) && std::isfinite(x.azi2) && std::isfinite(x.m12) && std::isfinite(x.M12) && std::isfinite(x.M21) && std::isfinite(x.S12); };
+  if (!finite(o)) { report(c, p, wh, std::string("oracle:C02/") + solver + "/non-finite-output/" + p.regime + "/" + shape_of(p.e.f), wout(wit(p, solver), o)); return; }
   const bool l180 = fabsq(lon12q) == 180, anti_lat = anti_lat_eff(p.lat1, p.lat2), poles_opp = std::fabs(p.lat1) == 90 && anti_lat;
   const bool coincident = o.s12 == 0;
   const bool sphere_antipodal = p.e.f == 0 && anti_lat && l180;
@@ -519,15 +626,16 @@ template <class G> static void sym_solver(Ctx& c, const gh::Solvers& S, const G&
     Pair qp = p; qp.lat1 = la1; qp.lon1 = n1; qp.lat2 = la2; qp.lon2 = n2;
     Inv got = call_inv(g, qp), want = map_image(o, gI);
     c.event("symmetry images judged");
+    if (!finite(got)) { report(c, p, wh, std::string("oracle:C02/") + solver + "/non-finite-output/" + p.regime + "/" + shape_of(p.e.f), wout(wit(qp, solver), got)); continue; }
     J w = wit(p, solver).i("image_swap", gI.swap).i("image_equator", gI.eq).i("image_meridian", gI.mer).i("k1", gI.k1).i("k2", gI.k2)
       .f("base_s12", o.s12).f("base_azi1", o.azi1).f("base_azi2", o.azi2).f("base_a12", o.a12).f("base_m12", o.m12).f("base_M12", o.M12).f("base_M21", o.M21).f("base_S12", o.S12)
       .f("img_s12", got.s12).f("img_azi1", got.azi1).f("img_azi2", got.azi2).f("img_a12", got.a12).f("img_m12", got.m12).f("img_M12", got.M12).f("img_M21", got.M21).f("img_S12", got.S12);
     std::string key = "law:C02/" + sv + "/symmetry/" + (gI.swap ? "swap" : "") + (gI.eq ? "+equator" : "") + (gI.mer ? "+meridian" : "") + ((gI.k1 || gI.k2) ? "+360k" : "");
     double es = std::fabs(got.s12 - want.s12), ea = std::fabs(got.a12 - want.a12) * M_PI / 180 * S.b;
     c.obs("symmetry: |s12 image - s12| / tolerance [" + sv + "]", es / T, w);
-    if (es > T) c.viol(key + "/s12", p.cls, J(w).f("err_m", es).f("tol_m", T));
-    if (ea > T) c.viol(key + "/a12", p.cls, J(w).f("err_m", ea).f("tol_m", T));
-    if (!conj) { double em = std::fabs(got.m12 - want.m12); c.obs("symmetry: |m12 image - m12| / tolerance [" + sv + "]", em / (2 * T), w); if (em > 2 * T) c.viol(key + "/m12", p.cls, J(w).f("err_m", em).f("tol_m", 2 * T)); }
+    if (es > T) report(c, p, wh, key + "/s12", J(w).f("err_m", es).f("tol_m", T));
+    if (ea > T) report(c, p, wh, key + "/a12", J(w).f("err_m", ea).f("tol_m", T));
+    if (!conj) { double em = std::fabs(got.m12 - want.m12); c.obs("symmetry: |m12 image - m12| / tolerance [" + sv + "]", em / (2 * T), w); if (em > 2 * T) report(c, p, wh, key + "/m12", J(w).f("err_m", em).f("tol_m", 2 * T)); }
     if (coincident || got.s12 == 0) { c.event("symmetry: coincident (azimuths free)"); continue; }
     // azimuths, scales, area: the predicted image or a documented alternative
     const double mm = std::max(std::fabs(o.m12), 0.0), rad = M_PI / 180;
@@ -543,7 +651,7 @@ template <class G> static void sym_solver(Ctx& c, const gh::Solvers& S, const G&
       // [azi1, azi2] -> [azi1, azi2] + [d, -d]: only the sum is determined; S12 changes by c2 * (-2 d)
       double e = std::fabs(angdiff(got.azi1 + got.azi2, want.azi1 + want.azi2)) * rad * mm;
       c.event("symmetry: opposite poles / sphere antipodes (azimuth sum judged)");
-      if (e > 2 * T && mm > 0) c.viol(key + "/azimuth-sum", p.cls, J(w).f("err_m", e).f("tol_m", 2 * T));
+      if (e > 2 * T && mm > 0) report(c, p, wh, key + "/azimuth-sum", J(w).f("err_m", e).f("tol_m", 2 * T));
       continue;
     }
     bool okalt = false;
@@ -557,7 +665,7 @@ template <class G> static void sym_solver(Ctx& c, const gh::Solvers& S, const G&
     c.obs("symmetry: azimuth image residual*|m12| / tolerance [" + sv + "]", bestaz / (2 * T), w);
     if (!conj) { c.obs("symmetry: M12/M21 image residual / tolerance [" + sv + "]", bestM / tolM, w); c.obs("symmetry: S12 image residual / tolerance [" + sv + "]", bestS / tolS, w); }
     if (alts.size() > 1) c.event("symmetry: cases with documented alternatives");
-    if (!okalt) c.viol(key + (bestaz > 2 * T ? "/azimuth" : bestM > tolM ? "/M12-M21" : "/S12"), p.cls, J(w).f("err_az_m", bestaz).f("err_M", bestM).f("err_S", bestS).f("tol_m", 2 * T).f("tol_M", tolM).f("tol_S", tolS));
+    if (!okalt) report(c, p, wh, key + (bestaz > 2 * T ? "/azimuth" : bestM > tolM ? "/M12-M21" : "/S12"), J(w).f("err_az_m", bestaz).f("err_M", bestM).f("err_S", bestS).f("tol_m", 2 * T).f("tol_M", tolM).f("tol_S", tolS));
   }
 }
 static void sec_symmetry(Ctx& c, uint64_t) {
@@ -576,8 +684,7 @@ static void sec_symmetry(Ctx& c, uint64_t) {
   default: p.lon2 = grid(r.uniform(-180, 180)); break;
   }
   gh::Solvers& S = gh::solvers(p.e.a, p.e.f, p.e.series_ok);
-  p.regime = regime_of(p.e.a, p.e.f, p.lat1, p.lat2, lon12_exact(p));
-  p.cls = p.sec + "/" + p.regime + "/" + p.e.bucket;
+  classify(p, lon12_exact(p));
   c.count(p.cls, vh::hmix(vh::hmix(vh::hmix(vh::hmix(vh::hmix(vh::hmix(19, p.e.a), p.e.f), p.lat1), p.lon1), p.lat2), p.lon2));
   c.event("regime: " + p.regime);
   if (c.want_sample(p.cls)) c.sample(p.cls, wit(p, "-"));
@@ -614,9 +721,11 @@ int main(int argc, char** argv) {
   S.push_back({"selftest", 180, 1800, false, sec_selftest, 300});
   S.push_back({"directed", ndir, ndir, false, sec_directed, 300});
   S.push_back({"astroid", 24 * 24 * 6, 200 * 200 * 6, false, sec_astroid, 300});
-  S.push_back({"constructed", 24000, 1500000, true, sec_constructed, 300});
-  S.push_back({"random", 12000, 700000, true, sec_random, 300});
-  S.push_back({"short", 8000, 300000, true, sec_short, 300});
+  S.push_back({"constructed", 24000, 1000000, true, sec_constructed, 300});
+  S.push_back({"random", 12000, 500000, true, sec_random, 300});
+  S.push_back({"short", 8000, 200000, true, sec_short, 300});
+  S.push_back({"antipodal-ulps", 8000, 400000, true, sec_antipodal_ulps, 300});
+  S.push_back({"near-equator", 6000, 300000, true, sec_near_equator, 300});
   S.push_back({"symmetry", 16000, 600000, true, sec_symmetry, 60});
   return vh::run_sections(argc, argv, S);
 }
